@@ -10,7 +10,8 @@
 import Honeycomb.Gen.AttrMoves
 import Honeycomb.Model.Ops
 
-namespace HC
+namespace HC.GenTie
+open HC
 variable {X : Type}
 
 /-- cell operand: the three identifier parameters, in the order of the Rust signature -/
@@ -132,4 +133,4 @@ theorem C04_gen_splitS (cfg : Cfg X) (s lout rout inp : Nat) :
 /-- the interpreters reject what they do not understand -/
 example (s : Nat) : interpWrites (X := X) s 0 0 0 (a := x) (b := x) [(9, [])] = Prog.panic := rfl
 
-end HC
+end HC.GenTie
